@@ -163,6 +163,10 @@ Definition double_not_positive (b : list Z) : bool :=
   let is_nan := (ex =? 2047) && negb (frac =? 0) in
   is_nan || (sign =? 1) || ((ex =? 0) && (frac =? 0)).
 
+(* !tsk_isfinite(L): exponent bits all ones (infinities and NaNs) *)
+Definition double_not_finite (b : list Z) : bool :=
+  (le_dec b / 4503599627370496) mod 2048 =? 2047.
+
 (* the pinned (pre-fix) test `L[0] <= 0.0`, which a NaN passed: kept for the historical record *)
 Definition double_le_zero_pinned (b : list Z) : bool :=
   let bits := le_dec b in
@@ -341,7 +345,9 @@ Definition tsk_load_bytes (skip_tables skip_refseq : bool) (s : list Z) : res (t
   do md <- opt_top rs 5 [];
   do ms <- opt_top rs 6 [];
   do tabs <- (if skip_tables then Ok (map empty_table tsk_table_schemas) else load_tables rs tsk_table_schemas);
-  do idx <- (if skip_tables then Ok (Some ([], []))
+  (* skip_tables: tsk_table_collection_build_index -> check_integrity, which (since c14733b)
+     also rejects a non-finite sequence_length *)
+  do idx <- (if skip_tables then (if double_not_finite L then Err T_BAD_SEQUENCE_LENGTH else Ok (Some ([], [])))
              else load_indexes rs (t_n (nth edges_index tabs (mk_table 0 [] [] []))));
   do rsq <- (if skip_refseq then Ok None else load_refseq rs);
   Ok (mk_tcoll L uuid tu md ms tabs idx rsq, rest).
